@@ -351,6 +351,10 @@ func c02(c *core.Ctx) {
 	// "exactly the handler's final status" includes a handler that ends with its own context error: it reaches the
 	// client as Canceled / DeadlineExceeded on every route from the handler to the caller (C04/R4)
 	c.Borrow("C04", map[string]string{"R4": "R8"}, c04)
+	// the handler's status travels in the trailer frame, which is written only if no response write "failed": a frame
+	// writer that reports a flush problem as a write failure (a ResponseWriter without Flush behind some middleware)
+	// cuts the reply and the client sees "unexpected EOF" instead of the handler's status (C01/R12)
+	c.Borrow("C01", map[string]string{"R12": "R9"}, c01)
 }
 
 // ---------------------------------------------------------------------------
